@@ -222,3 +222,12 @@ def apply_reform(params: dict, reform: dict):
 def undo_reform(params: dict, applied):
     g, path, old, _new = applied
     _set(params[g], path, old)
+
+
+def user_rules() -> dict:
+    """User policy functions added to the environment in C01/C02 runs: a rule from a module
+    with string annotations (`from __future__ import annotations`) that returns an integer
+    literal in one branch."""
+    import sim.user_module as um
+
+    return {"verif_extra_column": um.verif_extra_column}
